@@ -870,7 +870,7 @@ start_glib_boxed (GMarkupParseContext *context,
   ((GIrNode *)boxed)->name = g_strdup (name);
   boxed->gtype_name = g_strdup (typename);
   boxed->gtype_init = g_strdup (typeinit);
-  if (deprecated)
+  if (deprecated && strcmp (deprecated, "0") != 0)
     boxed->deprecated = TRUE;
   else
     boxed->deprecated = FALSE;
@@ -968,7 +968,7 @@ start_function (GMarkupParseContext *context,
   ((GIrNode *)function)->name = g_strdup (name);
   function->symbol = g_strdup (symbol);
   function->parameters = NULL;
-  if (deprecated)
+  if (deprecated && strcmp (deprecated, "0") != 0)
     function->deprecated = TRUE;
   else
     function->deprecated = FALSE;
@@ -1594,7 +1594,7 @@ start_enum (GMarkupParseContext *context,
   enum_->gtype_init = g_strdup (typeinit);
   enum_->error_domain = g_strdup (error_domain);
 
-  if (deprecated)
+  if (deprecated && strcmp (deprecated, "0") != 0)
     enum_->deprecated = TRUE;
   else
     enum_->deprecated = FALSE;
@@ -1755,7 +1755,7 @@ start_member (GMarkupParseContext *context,
 
   value_->value = parse_value (value);
 
-  if (deprecated)
+  if (deprecated && strcmp (deprecated, "0") != 0)
     value_->deprecated = TRUE;
   else
     value_->deprecated = FALSE;
@@ -1834,7 +1834,7 @@ start_constant (GMarkupParseContext *context,
 
   ctx->current_typed = (GIrNode*) constant;
 
-  if (deprecated)
+  if (deprecated && strcmp (deprecated, "0") != 0)
     constant->deprecated = TRUE;
   else
     constant->deprecated = FALSE;
@@ -1906,7 +1906,7 @@ start_interface (GMarkupParseContext *context,
   iface->gtype_name = g_strdup (typename);
   iface->gtype_init = g_strdup (typeinit);
   iface->glib_type_struct = g_strdup (glib_type_struct);
-  if (deprecated)
+  if (deprecated && strcmp (deprecated, "0") != 0)
     iface->deprecated = TRUE;
   else
     iface->deprecated = FALSE;
@@ -1985,7 +1985,7 @@ start_class (GMarkupParseContext *context,
   iface->gtype_init = g_strdup (typeinit);
   iface->parent = g_strdup (parent);
   iface->glib_type_struct = g_strdup (glib_type_struct);
-  if (deprecated)
+  if (deprecated && strcmp (deprecated, "0") != 0)
     iface->deprecated = TRUE;
   else
     iface->deprecated = FALSE;
@@ -2724,7 +2724,7 @@ start_struct (GMarkupParseContext *context,
 					     ctx->current_module);
 
   ((GIrNode *)struct_)->name = g_strdup (name ? name : "");
-  if (deprecated)
+  if (deprecated && strcmp (deprecated, "0") != 0)
     struct_->deprecated = TRUE;
   else
     struct_->deprecated = FALSE;
@@ -2802,7 +2802,7 @@ start_union (GMarkupParseContext *context,
   union_->gtype_init = g_strdup (typeinit);
   union_->copy_func = g_strdup (copy_func);
   union_->free_func = g_strdup (free_func);
-  if (deprecated)
+  if (deprecated && strcmp (deprecated, "0") != 0)
     union_->deprecated = TRUE;
   else
     union_->deprecated = FALSE;
